@@ -25,6 +25,24 @@ class _WireMap(dict):
         self.alive[id(self.interp._cur)] = self.interp._cur
 
 
+_AS_WIRE: list = []
+
+
+def _as_wire(port):
+    if not _AS_WIRE:
+        from hugr.hugr.node_port import Wire
+
+        class WrappedWire(Wire):
+            def __init__(self, p):
+                self._p = p
+
+            def out_port(self):
+                return self._p
+
+        _AS_WIRE.append(WrappedWire)
+    return _AS_WIRE[0](port)
+
+
 class Interp:
     def __init__(self, hook=None):
         from vf.gen.types import Builder
@@ -69,6 +87,9 @@ class Interp:
             if self.node_wires and type(w) is OutPort and w.offset == 0 and self._wire_uses % 3 == 0:
                 w = w.node
                 self.nodes_as_wires = getattr(self, "nodes_as_wires", 0) + 1
+            elif self.node_wires and type(w) is OutPort and self._wire_uses % 5 == 4:
+                # something that merely implements the Wire protocol (only out_port() says what it is)
+                w = _as_wire(w)
             out.append(w)
         return out
 
